@@ -164,6 +164,7 @@ Not decided: that the (min, max) handed to the selector is the true hull of the 
     }
     lub(m, ctx);
     literal(m, ctx);
+    named_first(m, ctx, "C06.named");
 }
 
 fn judge(ctx: &mut Ctx, f: &FnInfo, scenario: &str, res: &Val, lo: Option<i128>, hi: Option<i128>, ext: bool, both_integral: bool) {
@@ -468,5 +469,42 @@ fn literal(m: &Model, ctx: &mut Ctx) {
         if !b.contains("(integer_type.into_token_stream(),formatted_value)") {
             ctx.violate("C06.literal", "declared-type-is-linked-type", &f.file, f.line, "a builtin-typed integer constant must be declared with the integer type the linker attached to the value");
         }
+    }
+}
+
+/// An identifier written as the value of a referenced INTEGER / ENUMERATED type (`level Level DEFAULT limit`) denotes
+/// the named number / enumeral of that type when the type defines one of that name, whatever else in the module is
+/// called the same (X.680 19.10 / 20.8: the scope of a named number is its type). In the arm of link_with_type that
+/// links an identifier against a referenced type, the lookup among the type's own names therefore comes before the
+/// lookup of a top-level value assignment. Otherwise the literal emitted for the DEFAULT is the unrelated value's,
+/// which need not fit the type chosen for the governing type.
+pub fn named_first(m: &Model, ctx: &mut Ctx, rule: &str) {
+    let Some(f) = m.fns.iter().find(|f| f.name == "link_with_type" && f.self_ty.as_deref() == Some("ASN1Value")) else {
+        ctx.fail_closed(rule, "anchor not found: ASN1Value::link_with_type");
+        return;
+    };
+    ctx.func(&f.key);
+    let Some(mt) = crate::model::matches_in(&f.block).into_iter().max_by_key(|mt| mt.arms.len()) else {
+        ctx.fail_closed(rule, "link_with_type: no match");
+        return;
+    };
+    let arm = mt.arms.iter().find(|a| {
+        let p = tok(&a.pat);
+        p.contains("ASN1Type::ElsewhereDeclaredType(") && p.contains("ASN1Value::ElsewhereDeclaredValue{")
+    });
+    let Some(arm) = arm else {
+        ctx.fail_closed(rule, "link_with_type: the arm for (type reference, identifier) was not found");
+        return;
+    };
+    ctx.oblige(rule, "own-names-before-toplevel-values", true);
+    let b = tok(&arm.body);
+    let own = b.find("link_enum_or_distinguished(");
+    let top = [b.find("tlds.get(identifier)"), b.find(".zip(tlds.get(identifier))")].into_iter().flatten().min();
+    match (own, top) {
+        (Some(o), Some(t)) if o < t => {}
+        (Some(_), None) => {}
+        (None, _) => ctx.violate(rule, "own-names-not-consulted", &f.file, crate::rules::util::span_line(arm), "an identifier given as the value of a referenced type is never looked up among the named numbers / enumerals of that type"),
+        _ => ctx.violate(rule, "toplevel-value-before-own-names", &f.file, crate::rules::util::span_line(arm),
+            "an identifier given as the value of a referenced type is first looked up among the top-level value assignments and only then among the named numbers of the type: `Level ::= INTEGER { limit(5) } (0..10)  limit INTEGER ::= 300  S ::= SEQUENCE { level Level DEFAULT limit }` then emits Level(300) for a u8"),
     }
 }
